@@ -2,10 +2,13 @@
 
 Real hailtop.aiotools.weighted_semaphore.WeightedSemaphore (through acquire_manager, as the copy
 tool uses it) on the virtual loop.  A configuration is (capacity, weights, hold lengths, how each
-body ends, which jobs a controller cancels).  Controllers are ordinary tasks that are runnable from
-the start, so exploring every order of runnable callbacks lands each `victim.cancel()` at every step
-boundary of the execution: before the victim reached acquire, while it is queued, after the
-semaphore woke it but before it resumed, while it holds, after it left.
+body ends, which jobs a controller cancels).  A controller waits for an external event and then calls
+`victim.cancel()`, so the cancellation lands before the victim reached acquire, while it is queued, after
+the semaphore woke it but before it resumed, while it holds, after it left.
+Scheduling model (only schedules real asyncio can produce): the ready queue is strictly FIFO, so a freshly
+created task takes its first step in creation order; every yield of a harness body, every arrival and the
+cancellation are external events which the environment completes in any order, appending the completion at
+the end of the ready queue (timers due at one instant fire in any order too).  All such orders are explored.
 
 Oracle (only what the statement says):
   * the sum of the weights of the jobs inside their critical section never exceeds capacity;
